@@ -1170,7 +1170,11 @@ func (f *Frame) execBinOp(st *State, x *ssa.BinOp) Value {
 		}
 		return VT{B.Ite(B.Ge(bt.T, B.Int(int64(bits))), over, d)}
 	case token.AND, token.OR, token.XOR, token.AND_NOT:
-		return VT{vc.bitop(x.Op, at.T, bt.T, bits, signed)}
+		r := vc.bitop(x.Op, at.T, bt.T, bits, signed)
+		if x.Op == token.AND && bits == 64 && !signed {
+			f.swarFacts(st, x, r)
+		}
+		return VT{r}
 	}
 	return vc.freshValue(f.prefix+x.Name(), x.Type())
 }
@@ -1263,7 +1267,12 @@ func (vc *VC) bitop(op token.Token, a, b *Term, bits uint, signed bool) *Term {
 		}
 		vc.fact(B.Implies(B.Eq(ub, B.Int(0)), B.Eq(r, B.Int(0))))
 		vc.fact(B.Implies(B.Eq(ua, B.Int(0)), B.Eq(r, B.Int(0))))
+		vc.fact(B.Implies(B.Eq(ub, B.Sub(full, B.Int(1))), B.Eq(r, ua)))
+		vc.fact(B.Implies(B.Eq(ua, B.Sub(full, B.Int(1))), B.Eq(r, ub)))
 	case token.OR:
+		allOnes := B.Sub(full, B.Int(1))
+		vc.fact(B.Implies(B.Eq(ub, allOnes), B.Eq(r, allOnes)))
+		vc.fact(B.Implies(B.Eq(ua, allOnes), B.Eq(r, allOnes)))
 		vc.fact(B.And(B.Le(ua, r), B.Le(ub, r), B.Lt(r, full), B.Le(r, B.Add(ua, ub))))
 		vc.fact(B.Implies(B.Eq(ub, B.Int(0)), B.Eq(r, ua)))
 		vc.fact(B.Implies(B.Eq(ua, B.Int(0)), B.Eq(r, ub)))
@@ -1273,6 +1282,8 @@ func (vc *VC) bitop(op token.Token, a, b *Term, bits uint, signed bool) *Term {
 		vc.fact(B.Eq(B.Eq(r, B.Int(0)), B.Eq(ua, ub)))
 	case token.AND_NOT:
 		vc.fact(B.And(B.Le(B.Int(0), r), B.Le(r, ua)))
+		vc.fact(B.Implies(B.Eq(ub, B.Int(0)), B.Eq(r, ua)))
+		vc.fact(B.Implies(B.Eq(ub, B.Sub(full, B.Int(1))), B.Eq(r, B.Int(0))))
 	}
 	vc.note("bitwise %s on symbolic operands abstracted by an uninterpreted function with sound bounds", name)
 	return fromU(r)
